@@ -1059,7 +1059,7 @@ decl(struct scope *s, struct func *f)
 	bool hasinit;
 	char *name, *asmname;
 	int allowfunc = !f;
-	struct decl *d, *prior;
+	struct decl *d, *prior, *p;
 	enum declkind kind;
 	struct scope *funcscope;
 	int align;
@@ -1187,6 +1187,10 @@ decl(struct scope *s, struct func *f)
 					error(&tok.loc, "function definition not allowed");
 				if (d->defined)
 					error(&tok.loc, "function '%s' redefined", name);
+				for (p = t->u.func.params; p; p = p->next) {
+					if (p->type->incomplete)
+						error(&tok.loc, "function '%s' defined with parameter of incomplete type", name);
+				}
 				/* re-open scope from function declarator */
 				assert(funcscope);
 				s = funcscope;
